@@ -5,7 +5,7 @@
 S=$1; PLACE=$2; RX=$3; PKG=${4:-./$PLACE}
 export GOFLAGS=-mod=mod GOPROXY=off GOSUMDB=off GOTOOLCHAIN=local
 W=$(mktemp -d /tmp/vs.XXXXXX); rmdir $W
-git -C /repo worktree add -q --detach $W HEAD || exit 2
+git -C /repo worktree add -q --detach $W ${BASE:-HEAD} || exit 2
 trap 'git -C /repo worktree remove --force $W; rm -rf $W' EXIT
 cd $W
 cp $S/*_test.go $PLACE/ 2>/dev/null
